@@ -386,6 +386,10 @@ def guard_rule(ck, mod, offs, incs, label):
               "an emission may write %s bytes per counter step (more than one 32-byte block)" % ("an unbounded number of" if ub is None else ub), where=where)
         # g2: guard
         L = f.blocks[E.b].loop
+        if f.blocks[E.b].depth is not None and f.blocks[E.b].depth > 1:
+            # a store in a byte-copy loop inside the block loop: the bytes written per counter step are those of all its iterations, and the
+            # guard / increment belong to the enclosing loop - this rule reads one emission per iteration of the loop it stands in
+            raise Broken("tinyjambu_prng_generate: an emission at %s stands in an inner loop (a byte-wise copy-out?): bytes per counter step and the per-block guard are not analysed for this shape" % where)
         tests = []
         for I in f.insts:
             if I.op != "icmp":
